@@ -449,6 +449,7 @@ impl Property for C08 {
             components_stub: vec![
                 "input stream (SimReader) and output stream (SimWriter): simulated, every call scheduled and recorded".into(),
                 "the interactive peer: none (input is a fixed text; ordering is observed at the read calls)".into(),
+                "process arm: the peer of the real binary (hands over line j after the output expected before listen j has arrived; shuts standard output down) and, in every other such scenario, the child's clocks (preloaded shim sim/clockshim: skewed wall clock, 0.7-90 s per reading)".into(),
             ],
             step_unit: "stream calls (read/write/flush) made by the interpreter",
             history_measure: "distinct sequences of stream events of one execution, by kind (read data / EOF / EINTR / hard error / after-fault, write accepted full / short / EINTR / Ok(0) / hard error / after-fault, flush) with sizes bucketed (0,1,2-3,4-7,8-31,32+)",
